@@ -1,4 +1,4 @@
-CONSTANTS PageM <- Page43 Formats = {"RGBA32_LE", "PAL8", "YUV420"} Strides = {"exact", "plus5"} MaxDraws = 1 Clip = FALSE
+CONSTANTS Pages <- SmallPages Formats = {"RGBA32_LE", "PAL8", "YUV420"} Strides = {"exact", "plus5"} MaxDraws = 1 Clip = "none"
 SPECIFICATION Spec
 PROPERTIES Frame
 CHECK_DEADLOCK FALSE
